@@ -223,7 +223,7 @@ func runC14(ctx *Ctx) error {
 	ctx.CaseTy = "c14_case"
 	ctx.Shard = 600
 	ctx.HasKF = true
-	ctx.Rule = "typing: EVERY statement sequence of length <= 3 (quick; 4 thorough over a reduced alphabet) over a 37-statement alphabet (every supported step; empty and non-empty id/label/key lists; valid, empty, reserved, dotted and __current__ mark names; selects of one / two / zero marks, defined and undefined; unique and duplicate aggregation names) plus random sequences up to length 8, compiled by core.NewCompiler and by the Mongo compiler (verif hook, no database); observed accept/reject, result type, mark types. filters: 12 operators x 17 scalar field values (absent, null, booleans, numbers, numeric and plain text) x 26 arguments (scalars, lists of every arity incl. wrong-typed bounds, a map) exhaustively, plus random and/or/not/unset nestings with empty lists to depth 3 (quick) / 5 (thorough) over keys x, y, missing, _label, _gid, n.k, $.x; observed: the bson filter document of convertHasExpression read back into the filter AST, and logic.MatchesHasExpression on the element; non-trivial = well-typed program of >= 2 statements / condition on a present value; distinct by input"
+	ctx.Rule = "typing: EVERY statement sequence of length <= 3 (quick; 4 thorough over a reduced alphabet) over a 37-statement alphabet (every supported step; empty and non-empty id/label/key lists; valid, empty, reserved, dotted and __current__ mark names; selects of one / two / zero marks, defined and undefined; unique and duplicate aggregation names) plus the sequences that take one mark name twice with a type change in between (also followed by selects), plus random sequences up to length 8, compiled by core.NewCompiler and by the Mongo compiler (verif hook, no database); observed accept/reject, result type, mark types. filters: 12 operators x 17 scalar field values (absent, null, booleans, numbers, numeric and plain text) x 26 arguments (scalars, lists of every arity incl. wrong-typed bounds, a map) exhaustively, plus random and/or/not/unset nestings with empty lists to depth 3 (quick) / 5 (thorough) over keys x, y, missing, _label, _gid, n.k, $.x; observed: the bson filter document of convertHasExpression read back into the filter AST, and logic.MatchesHasExpression on the element; non-trivial = well-typed program of >= 2 statements / condition on a present value; distinct by input"
 	var inputs []c14Input
 	if ctx.Replay != nil {
 		var in c14Input
@@ -249,6 +249,17 @@ func runC14(ctx *Ctx) error {
 			}
 		}
 		rec(nil, 3)
+		// a mark name taken again after the type of the traveler has changed (the later type must win), with and without a select
+		for _, st := range []tStmt{{Op: "V"}, {Op: "E"}} {
+			for _, mv1 := range []tStmt{{Op: "outE"}, {Op: "out"}, {Op: "both"}, {Op: "inE"}, {Op: "count"}, {Op: "render", Tpl: "$.x"}} {
+				for _, name := range []string{"m", "n"} {
+					base := []tStmt{st, {Op: "as", Str: name}, mv1, {Op: "as", Str: name}}
+					inputs = append(inputs, c14Input{Kind: "type", Prog: base},
+						c14Input{Kind: "type", Prog: append(append([]tStmt{}, base...), tStmt{Op: "select", Strs: []string{name}})},
+						c14Input{Kind: "type", Prog: append(append([]tStmt{}, base...), tStmt{Op: "out"}, tStmt{Op: "as", Str: "m"}, tStmt{Op: "select", Strs: []string{"m", "n"}})})
+				}
+			}
+		}
 		n := ctx.Pick(1500, 20000)
 		for i := 0; i < n; i++ {
 			l := 4 + ctx.Rng.Intn(5)
